@@ -35,6 +35,8 @@ func (p Payload) Len() int {
 		return n
 	case "lit":
 		return len(p.Hex) / 2
+	case "surprise":
+		return p.A + p.N + surpriseTail
 	}
 	return p.N
 }
@@ -120,6 +122,56 @@ func (p Payload) Bytes() []byte {
 			}
 		}
 		return b
+	case "farcopy":
+		// A bytes of noise, then short noise gaps alternating with copies of
+		// 18..60 bytes taken from anywhere in that noise: long matches at far,
+		// unpredictable distances in a model trained on literals
+		r := NewRng(p.Seed)
+		k := p.A
+		if k > p.N {
+			k = p.N
+		}
+		b := r.Bytes(k)
+		for len(b) < p.N && k > 64 {
+			b = append(b, r.Bytes(r.Range(1, 6))...)
+			l := r.Range(18, 60)
+			o := r.Intn(k - l)
+			b = append(b, b[o:o+l]...)
+		}
+		if len(b) < p.N {
+			b = append(b, r.Bytes(p.N-len(b))...)
+		}
+		return b[:p.N]
+	case "surprise":
+		// A bytes of noise (a caller flushes after them), N more bytes of noise,
+		// 150 six-byte matches at distances 32..64 KiB with distance low bits
+		// 0000, 160 literals, then one 273-byte match from a little over 1 MiB
+		// back with low bits 1111, and 300 bytes of noise: the adaptive model
+		// expects short near matches, then no match at all - the long far match
+		// becomes about the most expensive single operation a stream can hold.
+		// N moves it byte by byte relative to the compressed-size limit of the
+		// chunk it falls into.
+		r := NewRng(p.Seed)
+		d := r.Bytes(p.A + p.N)
+		for i := 0; i < 150; i++ {
+			code := 32768 + 16*(100+13*i)
+			if s := len(d) - (code + 1); s >= 0 {
+				d = append(d, d[s:s+6]...)
+			} else {
+				d = append(d, r.Bytes(6)...)
+			}
+		}
+		d = append(d, r.Bytes(160)...)
+		code := 1<<20 + 16*777 + 15
+		if s := len(d) - (code + 1); s >= 0 {
+			for i := 0; i < 273; i++ {
+				d = append(d, d[s+i])
+			}
+			d = append(d, d[s+273]^0x55)
+		} else {
+			d = append(d, r.Bytes(274)...)
+		}
+		return append(d, r.Bytes(300)...)
 	case "dup":
 		x := p.Parts[0].Bytes()
 		return append(append(make([]byte, 0, 2*len(x)), x...), x...)
@@ -138,6 +190,9 @@ func (p Payload) Bytes() []byte {
 	}
 	panic("sim: unknown payload kind " + p.Kind)
 }
+
+// surpriseTail is what a "surprise" payload appends to its A+N bytes of noise.
+const surpriseTail = 150*6 + 160 + 274 + 300
 
 // Lit returns a literal payload.
 func Lit(b []byte) Payload { return Payload{Kind: "lit", Hex: hex.EncodeToString(b)} }
